@@ -4,7 +4,7 @@ import numpy as np
 from common import *
 
 ID = "C10"
-THEOREM_FILES = ["Summer.Props.C10", "Summer.Props.C10Solvers", "Summer.Props.C07Source", "Summer.Props.C01Rates"]
+THEOREM_FILES = ["Summer.Props.C10", "Summer.Props.C10Solvers", "Summer.Props.C07Source", "Summer.Props.C01Rates", "Summer.Props.C01Source"]
 TASK = "task"
 RULE = ("programs mixing constant, parameter-only, time- and state-dependent rates, adjustments, mixing matrices and computed values (with "
         "deliberately equal expressions on several flows); one_step at grid and off-grid times and arbitrary states vs the model; along "
@@ -54,7 +54,9 @@ def task(W, payload):
     if payload.get("known"):
         return known_task(W, payload)
     r = random.Random(f"C10:{payload['seed']}:{payload['index']}")
-    g = Gen(r, Opts(max_strats=2, max_flows=6, n_requests=2))
+    # every second program: several flows share a NAME (different rates, one adjustment declaration reaching all of them)
+    g = Gen(r, Opts(max_strats=2, max_flows=6, n_requests=2, shared_names_bias=(0.5 if payload["index"] % 2 else 0.0),
+                    force_strat=bool(payload["index"] % 2)))
     prog = g.program()
     # duplicate weights: give two flows the same expression object (key sharing in the realised-flow table)
     fl = [op for op in prog["build"] if op["op"] == "flow" and op.get("param") is not None]
